@@ -60,6 +60,14 @@ var widened = []string{
 	"bitstr.New", "bitstr.Len", "sigbits.New",
 }
 
+// widening, second kind: the mutating types of package bitmap that users give ONE PER GOROUTINE (a Builder, a
+// TailBitmap) while sharing the inputs.  For these the claim is confinement: every write goes through the
+// receiver (or fresh memory); nothing else that is shared is written.
+var mutators = []string{
+	"bitmap.NewBuilder", "bitmap.Builder.Extend", "bitmap.Builder.Set",
+	"bitmap.NewTailBitmap", "bitmap.TailBitmap.Set", "bitmap.TailBitmap.Compact", "bitmap.TailBitmap.Get", "bitmap.TailBitmap.Get1",
+}
+
 // functions outside the module that may receive a shared pointer: they only read through it
 // (trusted; listed in the evidence).  Everything else outside the module that is handed a shared
 // pointer is reported as unclassified.
@@ -959,10 +967,11 @@ func main() {
 		analysed, missing              []string
 		reachable                      map[*ssa.Function]bool
 		writes, unclassified, callrows []string
+		recvWrites                     []string
 		greads                         map[*ssa.Global]bool
 		rep                            []string
 	}
-	doGroup := func(name string, want []string) *group {
+	doGroup := func(name string, want []string, recvOK bool) *group {
 		g := &group{name: name, want: want, reachable: map[*ssa.Function]bool{}, greads: map[*ssa.Global]bool{}}
 		for _, n := range want {
 			fn := byName[n]
@@ -999,9 +1008,12 @@ func main() {
 				if chain != "" {
 					line += " (via " + chain + ")"
 				}
+				viaRecv := recvOK && fn.Signature.Recv() != nil && k.r.k == kParam && k.r.fn == fn && k.r.idx == 0
 				if strings.HasPrefix(k.e.kind, "extcall:") || strings.HasPrefix(k.e.kind, "dyncall:") {
 					g.unclassified = append(g.unclassified, row)
 					g.rep = append(g.rep, "UNCLASSIFIED "+line)
+				} else if viaRecv {
+					g.recvWrites = append(g.recvWrites, row)
 				} else {
 					g.writes = append(g.writes, row)
 					g.rep = append(g.rep, "SHARED-WRITE "+line)
@@ -1010,8 +1022,9 @@ func main() {
 		}
 		return g
 	}
-	gl := doGroup("listed", listed)
-	gw := doGroup("widened", widened)
+	gl := doGroup("listed", listed, false)
+	gw := doGroup("widened", widened, false)
+	gm := doGroup("mutators", mutators, true)
 
 	// writers of globals (over ALL functions of the loaded module packages)
 	writers := map[*ssa.Global]map[*ssa.Function]bool{}
@@ -1101,7 +1114,7 @@ func main() {
 			}
 		}
 	}
-	allGlobals := globalsOf(gl.greads, gw.greads, pkgGlobals)
+	allGlobals := globalsOf(gl.greads, gw.greads, gm.greads, pkgGlobals)
 	for _, g := range allGlobals {
 		for f := range writers[g] {
 			addNeed(f)
@@ -1160,6 +1173,9 @@ func main() {
 	}
 	emitGroup(gl, "")
 	emitGroup(gw, "w_")
+	emitGroup(gm, "m_")
+	w("(** writes of the mutators that go through their receiver (allowed: one receiver per goroutine) *)\n")
+	w("Definition m_receiver_writes : list swrite :=\n  %s.\n\n", coqList(gm.recvWrites))
 	w("(** ---- package-level variables: who writes them *)\n")
 	var pgl []string
 	for _, g := range globalsOf(pkgGlobals) {
@@ -1202,6 +1218,10 @@ func main() {
 		rep = append(rep, "MISSING widened function "+m+" not found in the source")
 	}
 	rep = append(rep, gw.rep...)
+	for _, m := range gm.missing {
+		rep = append(rep, "MISSING mutator "+m+" not found in the source")
+	}
+	rep = append(rep, gm.rep...)
 	// the same rule as Spec/EffectTypes.v init_only (the Coq side decides; this is only for the report)
 	var initOnly func(f *ssa.Function, depth int) bool
 	initOnly = func(f *ssa.Function, depth int) bool {
@@ -1233,6 +1253,6 @@ func main() {
 	if *report != "" {
 		os.WriteFile(*report, []byte(txt), 0o644)
 	}
-	fmt.Fprintf(os.Stderr, "effects: %d functions, %d listed (%d missing), %d reachable, %d shared writes, %d unclassified; widened: %d shared writes, %d unclassified\n",
-		len(a.fns), len(gl.analysed), len(gl.missing), len(gl.reachable), len(gl.writes), len(gl.unclassified), len(gw.writes), len(gw.unclassified))
+	fmt.Fprintf(os.Stderr, "effects: %d functions, %d listed (%d missing), %d reachable, %d shared writes, %d unclassified; widened: %d shared writes, %d unclassified; mutators: %d writes through the receiver, %d other shared writes\n",
+		len(a.fns), len(gl.analysed), len(gl.missing), len(gl.reachable), len(gl.writes), len(gl.unclassified), len(gw.writes), len(gw.unclassified), len(gm.recvWrites), len(gm.writes))
 }
